@@ -318,3 +318,40 @@ def c02_coerced_null(payload: int, hidden: bool, where: int) -> bool:
     if to_pairs(resp.get("data")) != exp:
         return verdict(False)
     return verdict(errors_ok(resp, ref) and locations_ok(resp, ref))
+
+
+# ---- the same failing request twice on one engine, and the same failure at two positions of one request: a failure is never "learnt" -----------
+def _two_foreign(parent, fname):
+    return [{"_typename": "C", "x": 1, "id": "c1"}, {"_typename": "C", "x": 2, "id": "c2"}]      # two items of the same foreign (not possible) runtime type
+
+
+@obligation(tier="quick", timeout=300, shards=[{"doc": d, "bits": b} for d in ("Q2", "Q1") for b in (0, 7)],
+            samples=[{"k": 1, "kind": 6, "payload": 0}, {"k": 3, "kind": 5, "payload": 1}, {"k": 0, "kind": 10, "payload": 0}],
+            symbolic=["payload: int (unbounded) returned at the fault point (kind 7)"],
+            selectors=["k: fault point", "kind: 0..9 as c02_single, 10: a list whose two items have the same foreign runtime type", "shard: document, nullability layout"],
+            bounds="2 documents x 2 layouts; the request is executed twice",
+            note="the same failing request executed twice on one engine: BOTH responses equal the reference propagation (an unknown / foreign runtime type, an unserialisable value... is refused "
+                 "every time it occurs, in one request and in the next)")
+def c02_repeat(k: int, kind: int, payload: int) -> bool:
+    """
+    post: _
+    """
+    sh = shard()
+    doc, bits = sh["doc"], sh["bits"]
+    pts = POINTS[doc]
+    k = pick(k, len(pts)); kind = pick(kind, NK + 1)
+    if kind == 10:
+        if not (POINT_LIST[doc][k] and POINT_KIND[doc][k] in ("INTERFACE", "UNION")):
+            return True
+        fault = _two_foreign
+    else:
+        if meaningless(doc, k, kind):
+            return True
+        if kind == 7 and POINT_NAME[doc][k] in ("String", "ID"):
+            payload = 2 ** 31 if payload > 0 else -5
+        fault = apply_fault(kind, payload)
+    for _rep in range(2):
+        resp = run_case(ENGS[bits], MODELS[bits], doc, {pts[k]: fault})
+        if resp is False:
+            return verdict(False)
+    return verdict(True)
